@@ -568,6 +568,17 @@ Definition agg_sep (info : list entry) (refs : list sref) : bool :=
   let rrs := repl_refs info refs in
   agg_guard info refs && nodup_str (rr_keys rrs) && forallb (agg_ref_sep info rrs) refs.
 
+(* ------------------------------------------------------------------ argument strings of a copy *)
+(* what the rewriting is meant to do to the blank-separated tokens of command.arguments: a token that is a
+   declared spelling (a key of the table) becomes its rewritten form, every other token is untouched *)
+Definition tok_spec (L : list (string * string)) (tok : string) : string :=
+  match entry_of tok L with Some v => v | None => tok end.
+(* separation: no spelling contains a blank or is empty, and every token either is a spelling or contains none *)
+Definition tok_ok (L : list (string * string)) (tok : string) : bool :=
+  match entry_of tok L with Some _ => true | None => keys_absent L tok end.
+Definition args_sep (L : list (string * string)) (toks : list string) : bool :=
+  forallb (fun kv => nonblank (fst kv)) L && forallb (tok_ok L) toks.
+
 (* ------------------------------------------------------------------ the dataflow of the two layers *)
 (* edges of the structured expansion: one per component reference whose producer is a node *)
 Definition sedges_of (out : list socomp) : list (string * string) :=
@@ -635,9 +646,17 @@ Definition struct_agrees_one (info : list entry) (c : tcomp) (sc : scomp) : bool
                           | Some i => no_overlap info i (s_refs sc)
                           | None => agg_guard info (s_refs sc)
                           end in
-             if guard then String.eqb (so_name so) (o_name o) &&
-                           list_eqb String.eqb (map spell (so_refs so)) (o_refs o)
-             else true) (combine souts touts).
+             (if guard then String.eqb (so_name so) (o_name o) &&
+                            list_eqb String.eqb (map spell (so_refs so)) (o_refs o)
+              else true) &&
+             (* executable form of C03_textual_arguments_replica *)
+             match so_replica so with
+             | Some i => let L := sorted_translation (repl_refs info (s_refs sc)) i in
+                         let toks := split_on " " (t_args c) in
+                         if no_overlap info i (s_refs sc) && args_sep L toks && String.eqb (join " " toks) (t_args c)
+                         then String.eqb (o_args o) (join " " (map (tok_spec L) toks)) else true
+             | None => true
+             end) (combine souts touts).
 
 Fixpoint struct_agrees (info : list entry) (cs : list tcomp) (scs : list scomp) : bool :=
   match cs, scs with
